@@ -36,5 +36,17 @@ package libjson
 //@   ensures  [fitting-integer-is-exact] ret("isJSONInteger", 0) && ext("strconv.ParseInt", 1, text, 10, 64) == nil ==> result != nil && result.Type == lisp.LInt && result.Int == ext("strconv.ParseInt", 0, text, 10, 64)
 //@   ensures  [unfitting-integer-is-never-an-int] ret("isJSONInteger", 0) && ext("strconv.ParseInt", 1, text, 10, 64) != nil ==> result != nil && result.Type != lisp.LInt
 //@   ensures  [unfitting-integer-is-a-range-error-unless-canonical-float] ret("isJSONInteger", 0) && ext("strconv.ParseInt", 1, text, 10, 64) != nil && result.Type != lisp.LFloat ==> result.Type == lisp.LError && result.Str == "json:integer-range-error"
+//@   assert-at Errorf [an-unfitting-integer-is-refused-only-after-the-own-rendering-test] ext("strconv.ParseFloat", 1, text, 64) != nil || called("appendJSONFloat")
 //@   ensures  [an-unfitting-integer-becomes-a-float-only-when-it-is-its-own-rendering] ret("isJSONInteger", 0) && ext("strconv.ParseInt", 1, text, 10, 64) != nil && result.Type == lisp.LFloat ==> strlen(text) == len(ret("appendJSONFloat", 0))
+//@   property C13
+
+// ---- exactly one JSON value: in the decoder-based modes a document is accepted
+// only if a second Decode finds the end of the input
+
+//@ func jsonDecode
+//@   ensures  [trailing-input-is-refused-with-string-numbers] stringNums && result == nil ==> ret("Decode#2", 0) == io.EOF
+//@   property C13
+
+//@ func decodeExactNumbers
+//@   ensures  [trailing-input-is-refused-with-exact-integers] result == nil ==> ext("errors.Is", 0, ret("Decode#2", 0), io.EOF)
 //@   property C13
